@@ -62,8 +62,14 @@ func (x *cbx) refusedOpens() {
 		}
 		return false
 	}
-	regA := func(a *atree.Array) { rootOf[a.SlabID()], counts[a.SlabID()] = "array", a.Count(); s.arrays = append(s.arrays, a) }
-	regM := func(m *atree.OrderedMap) { rootOf[m.SlabID()], counts[m.SlabID()] = "map", m.Count(); s.maps = append(s.maps, m) }
+	regA := func(a *atree.Array) {
+		rootOf[a.SlabID()], counts[a.SlabID()] = "array", a.Count()
+		s.arrays = append(s.arrays, a)
+	}
+	regM := func(m *atree.OrderedMap) {
+		rootOf[m.SlabID()], counts[m.SlabID()] = "map", m.Count()
+		s.maps = append(s.maps, m)
+	}
 	a1, err := fillArray(s, 600, 20) // three levels, large values
 	if fail(err) {
 		return
